@@ -733,6 +733,20 @@ func runPgClient(conn net.Conn, script []Stmt, results []StmtResult) error {
 			}
 		}
 		if st.Reexec && !st.rerun && res.Err == "" {
+			// another statement goes through the proxy before the second execution
+			fe.Send(&pgproto3.Query{String: "SELECT id FROM t1 WHERE id = -1"})
+			if err := fe.Flush(); err != nil {
+				return err
+			}
+			for {
+				msg, err := safeReceive(fe.Receive)
+				if err != nil {
+					return fmt.Errorf("statement %d (statement in between): %w", i, err)
+				}
+				if _, ok := msg.(*pgproto3.ReadyForQuery); ok {
+					break
+				}
+			}
 			script[i].rerun = true
 			i--
 		}
